@@ -179,3 +179,15 @@ func (m *Machine) Listing(name string, arity int) ([]*rt.Term, bool) {
 	}
 	return out, true
 }
+
+// ResetBudget starts a new step of a history: the inference and work budgets apply per step.
+func (m *Machine) ResetBudget() {
+	m.Stats.Steps = 0
+	m.work = 0
+}
+
+// Exists reports whether name/arity is a known procedure.
+func (m *Machine) Exists(name string, arity int) bool {
+	_, ok := m.db[key(name, arity)]
+	return ok
+}
